@@ -36,6 +36,12 @@ claim("C20",
       "TLA+ specs RWLock + LazyTable : TLC exhaustive, S->C walk of every state-graph edge on the real lock under a controlled scheduler, C->S trace validation of preemption observations", "DESIGN.md section 4 C20")
 
 
+claim("C13",
+      "TLC exhausts the BF2 importer model on bounded layouts (PAGE = 4): platform-filter rendering equivalent to the filter bytes over all assignments; payload unpacking/conversion for blob, BF2-compatible and memory-image formats over all run layouts with gaps, page crossings and non-zero starts (each line used exactly once, gaps rejected); the section state machine over 1..3 sections x tag types x instruction combinations. Real BF2 texts printed from generated layouts (images up to 200 000 bytes, every output byte attributable to its source line) are imported by the real code and the projected components / rejections, plus direct bf2_unpack_payload / bf2_convert_payload / parse_bf2_file calls, are judged by TLC (Trace_Bf2Import).",
+      "Trusted: TLC; the generated grammar delimits sections the way the importer can recognise them; byte-level attribution is done by the projection (a mismatch sets a flag the spec rejects).",
+      "TLA+ spec Bf2Import : TLC exhaustive on bounded symbolic layouts, C->S trace validation of real imports", "DESIGN.md section 4 C13")
+
+
 def main():
     props = [json.loads(l) for l in open(os.path.join(VERIF, "properties.jsonl"))]
     m = {"version": 1,
